@@ -111,6 +111,7 @@ def rules(repo=None):
     return [_rebrand(lambda: c02.r1_tmp_provenance(repo), "C09.P1"), _rebrand(lambda: c02.r2_publish_after_close(repo), "C09.P2"),
             _rebrand(lambda: c02.r3_no_writer_of_final(repo), "C09.P3"), _rebrand(lambda: c02.r4_staged_creation(repo), "C09.P4"),
             _rebrand(lambda: c02.r5_readers_ignore_tmp(repo), "C09.P5"),
+            _rebrand(lambda: c02.r6_identity_stable_until_published(repo), "C09.P6"),
             lambda: c20.r1_read_roles(repo, rid="C09.R1", prefixes=("digital_rf_hdf5:", "list_drf:"),
                                           stop_modules=("digital_metadata",)),
             lambda: r2_tolerates_vanished_files(repo), lambda: r3_cache_is_keyed_by_full_name(repo)]
